@@ -218,6 +218,16 @@ def main():
     limit = gen_limit(rng, ref, cfg)
     nl = len(ref.layers)
     r_ = 3 if i % 8 == 3 else int(rng.integers(0, 8))   # every eighth reference selects no layer
+    # directed configurations, independent of the random choices above (a stratum must not depend on a coin that other draws can void)
+    if i == 0:      # short per-class lists padded from a 4-element default whose recurrent entry differs from its activation entry
+      limit = {"Dense": [4], "Conv2D": [4, 4], "Conv1D": [2], "DepthwiseConv2D": [], "Activation": [4], "default": [8, 8, 16, 3]}
+      r_ = 0
+    elif i == 1:    # select no layer at all
+      limit = {"Dense": [4, 4, 4], "Conv2D": [4, 4, 4], "Conv1D": [4, 4, 4], "DepthwiseConv2D": [4, 4, 4], "Activation": [4]}
+      r_ = 3
+    elif i == 2:    # a single selected layer, 3-element list default
+      limit = {"Dense": [8], "Conv2D": [2], "Conv1D": [8, 2], "DepthwiseConv2D": [4], "Activation": [2], "default": [2, 4, 3]}
+      r_ = 4
     if r_ < 3:
       idxs = None
     elif r_ == 3:
@@ -398,7 +408,7 @@ def main():
     except Exception:  # pylint: disable=broad-except
       continue
     mode = ["layer", "block"][fi % 2]
-    exc = pick(rng, ["^$", "out", "_mid", "^conv_", "head", "x|y", "[0-9]$"])
+    exc = ["out", "_mid", "^$", "[0-9]$", "^conv_", "head", "x|y"][fi % 7]          # unanchored patterns first, in rotation
     flimit = {"Dense": [4, 4, 4], "Conv2D": [4, 4, 4], "Conv1D": [4, 4, 4], "DepthwiseConv2D": [4, 4, 4], "Activation": [4]}
     tgt = forgiving_factor["bits"](8.0, 8.0, 2.0, stress=1.0, config={"default": ["parameters", "activations"]})
     try:
